@@ -549,7 +549,8 @@ func (v *rolesVocab) readOp(t *Toks) histOp {
 		var iss []psetv2.InputIssuanceBlindingArgs
 		for n := t.Int(); n > 0; n-- {
 			a := psetv2.InputIssuanceBlindingArgs{Index: uint32(t.U64())}
-			if t.Int() == 1 {
+			icls := t.Int() // 0: nothing, 1: all six fields well formed, 2: as 1 with a 5-byte value commitment
+			if icls >= 1 {
 				a.IssuanceValueCommitment = append([]byte{0x08}, fill(32, 0xe1)...)
 				a.IssuanceTokenCommitment = append([]byte{0x08}, fill(32, 0xe2)...)
 				a.IssuanceValueRangeProof = []byte{0xe3}
@@ -558,6 +559,9 @@ func (v *rolesVocab) readOp(t *Toks) histOp {
 				a.IssuanceTokenBlindProof = []byte{0xe6}
 				a.IssuanceValueBlinder = fill(32, 0xe7)
 				a.IssuanceTokenBlinder = fill(32, 0xe8)
+				if icls == 2 {
+					a.IssuanceValueCommitment = fill(5, 0xee)
+				}
 			}
 			iss = append(iss, a)
 		}
@@ -579,6 +583,9 @@ func (v *rolesVocab) readOp(t *Toks) histOp {
 				a.Nonce = nil
 			} else if cls == 2 {
 				a.ValueCommitment = nil
+			} else if cls == 3 {
+				// 33 bytes that are not a curve point (x = 2^256-1 is not a field element)
+				a.NonceCommitment = append([]byte{0x02}, fill(32, 0xff)...)
 			}
 			outs = append(outs, a)
 		}
